@@ -5,7 +5,8 @@ PROP = {
             "per-byte-position exhaustion over 4 backgrounds, walking ones/zeros, NaN/inf/-0/subnormal patterns "
             "and seeded random values x 4 (byte order, word order) settings, integer and float entry points, "
             "plus ragged inputs that must panic. Bools: all vectors up to 12 bits, every length 0..2001 "
-            "(all-true, all-false, one-hot, random), decode with quantities off the byte boundary and past the input.",
+            "(all-true, all-false, one-hot, random), decode with quantities off the byte boundary and past the input."
+            " After rendering each decoded bool slice the executor overwrites and appends to it, so that storage shared between results shows in the next case.",
     "assumptions": ["math.Float32bits/Float64bits and their inverses are the identity on bit patterns (exercised with NaN payloads and -0)"],
 }
 
